@@ -101,6 +101,7 @@ def run(ctx):
         return
     summaries, digests, mism_total, evals, hist = {}, {}, 0, 0, {}
     wf_checked = wf_false = 0
+    driver_total = written_total = 0
     first_out = None
     import concurrent.futures as cf
     with cf.ThreadPoolExecutor(max_workers=len(procs_list)) as ex:
@@ -137,7 +138,17 @@ def run(ctx):
             wf_false += int(w.group(2))
         if ctx.replay:
             print(mlog)
-        if mism != 0 and not summ["propfail"]:
+        new_fail = [k for k in summ["propfail"] if not any(o["signature"] == "c15-" + k for o in ctx.known_open)]
+        driver_cases = int(m.group(1)) if m else -1
+        written = summ.get("written", -2)
+        driver_total += max(driver_cases, 0)
+        written_total += max(written, 0)
+        if (driver_cases != written or "DRIVER-ERROR" in mlog) and not new_fail:
+            ctx.violation("c15-correspondence-count", "GOMAXPROCS=%d: the driver compared %d cases, the harness wrote %d%s: the correspondence "
+                          "was not carried out on every case" % (procs, driver_cases, written,
+                                                                 (" (" + re.search(r"DRIVER-ERROR.*", mlog).group(0) + ")") if "DRIVER-ERROR" in mlog else ""),
+                          {"driver_output": mlog[:2000], "gomaxprocs": procs}, found_input=False)
+        if mism != 0 and not new_fail:
             first = re.search(r"MISMATCH case (\d+) \[(\w+)\].*(\n  .*){0,2}", mlog)
             ctx.violation("c15-correspondence-" + (first.group(2) if first else "driver"),
                           "model and implementation disagree on %s comparison(s); the theorems of Properties/C15.v no longer "
@@ -159,7 +170,22 @@ def run(ctx):
                                   % (idx, procs_list[0], procs),
                                   {"case": int(idx), "seed": ctx.seed, "tier": ctx.tier, "gomaxprocs": procs})
                     break
+    # every leg must have been exercised: a clause that silently drops out is not a pass
+    if not ctx.replay:
+        legs = {"repetitions": "evaluations", "rebuilds": "rebuilds", "reloads": "reloads", "exportnetwork-files": "networkfiles",
+                "histories": "histories", "interleaved-formats": "interleaves", "boundary-resaves": "boundaries"}
+        any_new = any(not any(o["signature"] == "c15-" + k for o in ctx.known_open) for s_ in summaries.values() for k in s_["propfail"])
+        for leg, key in sorted(legs.items()):
+            for procs, s_ in sorted(summaries.items()):
+                floor = max(1, s_.get("cases", 0) // 3)
+                if s_.get(key, 0) < floor and not any_new:
+                    ctx.violation("c15-leg-not-exercised-" + leg,
+                                  "GOMAXPROCS=%d: the %s leg made %d comparisons for %d cases (floor %d); loads failed: %d - the clause was "
+                                  "not explored, so it is not shown" % (procs, leg, s_.get(key, 0), s_.get("cases", 0), floor, s_.get("loadfailed", 0)),
+                                  {"gomaxprocs": procs, "summary": {k: v for k, v in s_.items() if isinstance(v, int)}}, found_input=False)
+                    break
     s0 = summaries[procs_list[0]]
+    ctx.min_evaluations = 3000 if ctx.tier == "quick" else 50000
     ctx.coverage.update({
         "evaluations": evals + cross,
         "cases_per_process": s0.get("cases", 0),
@@ -171,6 +197,8 @@ def run(ctx):
         "cross_process_comparisons": cross,
         "export_network_files_compared": sum(s.get("networkfiles", 0) for s in summaries.values()),
         "history_comparisons": sum(s.get("histories", 0) for s in summaries.values()),
+        "boundary_resave_comparisons": sum(s.get("boundaries", 0) for s in summaries.values()),
+        "cases_written": written_total, "cases_compared_by_driver": driver_total,
         "interleaved_format_exports": sum(s.get("interleaves", 0) for s in summaries.values()),
         "distinct_nontrivial": s0.get("nontrivial", 0),
         "distinct_cases": s0.get("distinct", 0),
